@@ -861,14 +861,414 @@ Proof.
   rewrite (drift_detected_thm t false p l l' la W M D). reflexivity.
 Qed.
 
+
 (* ------------------------------------------------------------------ *)
-(* C05: a deviation that never reaches the comparator (known finding)  *)
+(* C05: drift is still detected when the deviation makes the           *)
+(* last-applied annotation unreadable (it then reads as None)          *)
 (* ------------------------------------------------------------------ *)
 
-(* the target specifies metadata.annotations; the live value is retyped to a
-   truthy non-map: _extract_last_applied raises AttributeError (line 830
-   `metadata.get("annotations")` / 834 `annotations.get(...)`), the exception
-   leaves reconcile_krm_resource and no correction is made *)
+(* match, or a definite mismatch: no exception possible *)
+Definition mof (o : outs) : Prop := o = O_match \/ o = O_false.
+
+Lemma mof_union a b : mof a -> mof b -> mof (ounion a b).
+Proof. intros [A|A] [B|B]; subst; unfold mof; cbn; auto. Qed.
+
+Lemma mof_false_union a b : mof a -> mof b -> (a = O_false \/ b = O_false) -> ounion a b = O_false.
+Proof. intros [A|A] [B|B] [C|C]; subst; try reflexivity; onomatch C. Qed.
+
+Lemma vmatch_vs_null n t la s : mof (vmatch_f n t JNull la s).
+Proof.
+  unfold mof. destruct t, n; cbn; auto;
+    repeat match goal with |- context [if ?c then _ else _] => destruct c end; auto.
+Qed.
+
+Lemma l2o_null fields : list_to_object JNull fields = Ret JNull.
+Proof. reflexivity. Qed.
+
+Section DropLa.
+  Variable rec : json -> json -> json -> bool -> outs.
+  Hypothesis Hnull : forall t la s, mof (rec t JNull la s).
+  Hypothesis Hdrop : forall t a la s, rec t a la s = O_match -> mof (rec t a JNull s).
+  Variables (sk lk : list string) (cfg : list (string * list json)).
+
+  Lemma key_match_drop ak la k tv :
+    key_match rec sk lk cfg ak la k tv = O_match ->
+    mof (key_match rec sk lk cfg ak JNull k tv).
+  Proof.
+    unfold key_match. destruct (String.eqb k K_OWNERS); [left; reflexivity|].
+    change (probe_la JNull k) with (LaVal JNull).
+    destruct (probe_la la k) as [lav| |] eqn:P; intros H; try onomatch H.
+    - (* the probe succeeded *)
+      destruct (mem_str k lk).
+      + cbn [read_la] in H |- *.
+        destruct (lookup k cfg) as [fields|].
+        * destruct (negb (shape_ok lav)); [onomatch H|]. cbn [shape_ok negb].
+          destruct (list_to_object tv fields) as [T| |]; try onomatch H.
+          rewrite l2o_null. apply Hnull.
+        * apply Hnull.
+      + destruct (lookup k ak) as [v|]; [|onomatch H].
+        destruct (lookup k cfg) as [fields|].
+        * destruct (negb (shape_ok v)); [onomatch H|].
+          destruct (list_to_object tv fields) as [T| |]; try onomatch H.
+          destruct (list_to_object v fields) as [A| |]; try onomatch H.
+          cbn [read_la] in H |- *. rewrite l2o_null.
+          destruct (list_to_object lav fields) as [L| |]; try onomatch H.
+          eapply Hdrop; eauto.
+        * cbn [read_la] in H |- *. eapply Hdrop; eauto.
+    - (* the probe would raise on read: it was never read, or it raised *)
+      destruct (mem_str k lk); [cbn in H; onomatch H|].
+      destruct (lookup k ak) as [v|]; [|onomatch H].
+      destruct (lookup k cfg) as [fields|]; [|cbn in H; onomatch H].
+      destruct (negb (shape_ok v)); [onomatch H|].
+      destruct (list_to_object tv fields) as [T| |]; try onomatch H.
+      destruct (list_to_object v fields) as [A| |]; try onomatch H.
+      all: cbn in H; onomatch H.
+  Qed.
+
+  Lemma keys_loop_drop ak la l :
+    keys_loop rec sk lk cfg ak la l = O_match -> mof (keys_loop rec sk lk cfg ak JNull l).
+  Proof.
+    induction l as [|[k tv] r IH]; cbn; intros H; [left; reflexivity|].
+    destruct (is_directive k); auto.
+    apply ounion_match_inv in H. destruct H as [H1 H2].
+    apply mof_union; auto. eapply key_match_drop; eauto.
+  Qed.
+
+  (* the loop under la = None after a change of the live map at one specified key *)
+  Lemma keys_loop_dev_drop tk ak ak' la k tv :
+    nodup_str (map fst tk) = true -> lookup k tk = Some tv -> is_directive k = false ->
+    keys_loop rec sk lk cfg ak la tk = O_match ->
+    (forall k1, String.eqb k1 k = false -> lookup k1 ak' = lookup k1 ak) ->
+    key_match rec sk lk cfg ak' JNull k tv = O_false ->
+    keys_loop rec sk lk cfg ak' JNull tk = O_false.
+  Proof.
+    intros ND Lk D H Same F.
+    apply keys_loop_false.
+    - intros k1 tv1 I D1. destruct (String.eqb k1 k) eqn:E.
+      + apply String.eqb_eq in E. subst k1. right.
+        apply v_nodup_lookup in I; auto. rewrite Lk in I. inversion I. subst. exact F.
+      + rewrite (key_match_ext rec sk lk cfg ak ak') by (apply Same; exact E).
+        apply (key_match_drop ak la).
+        exact (proj1 (keys_loop_match rec sk lk cfg ak la tk) H k1 tv1 I D1).
+    - exists k, tv. split; [apply v_lookup_In; exact Lk|]. auto.
+  Qed.
+
+  Lemma list_loop_drop tl : forall al las,
+    list_loop rec tl al las = O_match -> mof (list_loop rec tl al []).
+  Proof.
+    induction tl as [|t0 tr IH]; intros al las H; cbn; [left; reflexivity|].
+    destruct al as [|a0 ar]; [left; reflexivity|]. cbn in H.
+    destruct (is_match (rec t0 a0 match las with [] => JNull | x :: _ => x end false)) eqn:M.
+    - apply is_match_true in M. destruct (Hdrop _ _ _ _ M) as [E|E]; rewrite E; cbn.
+      + eapply IH; eauto.
+      + right. reflexivity.
+    - rewrite H in M. discriminate M.
+  Qed.
+
+  Lemma list_loop_dev_drop tl : forall al las i t a a',
+    list_loop rec tl al las = O_match ->
+    nth_error tl i = Some t -> nth_error al i = Some a ->
+    (forall lav, rec t a lav false = O_match -> rec t a' JNull false = O_false) ->
+    list_loop rec tl (list_set i a' al) [] = O_false.
+  Proof.
+    induction tl as [|t0 tr IH]; intros al las i t a a' H Nt Na D.
+    - destruct i; discriminate Nt.
+    - destruct al as [|a0 ar]; [destruct i; discriminate Na|].
+      cbn in H.
+      destruct (is_match (rec t0 a0 match las with [] => JNull | x :: _ => x end false)) eqn:M.
+      + apply is_match_true in M. destruct i as [|i]; cbn in Nt, Na |- *.
+        * inversion Nt. inversion Na. subst t0 a0. rewrite (D _ M). reflexivity.
+        * destruct (Hdrop _ _ _ _ M) as [E|E]; rewrite E; cbn; [|reflexivity].
+          eapply IH; eauto.
+      + rewrite H in M. discriminate M.
+  Qed.
+End DropLa.
+
+Lemma vmatch_la_irrelevant n t a la la' s :
+  (forall tk ak, ~ (t = JMap tk /\ a = JMap ak)) ->
+  (forall tl al, ~ (t = JList tl /\ a = JList al /\ s = false)) ->
+  vmatch_f n t a la s = vmatch_f n t a la' s.
+Proof.
+  intros NM NL.
+  destruct t, a; destruct n; try reflexivity;
+    try (exfalso; eapply NM; eauto; fail);
+    destruct s; try reflexivity; exfalso; eapply NL; eauto.
+Qed.
+
+(* replacing the last-applied document by None never turns a match into an exception *)
+Lemma vmatch_drop_la : forall n t a la s,
+  vmatch_f n t a la s = O_match -> mof (vmatch_f n t a JNull s).
+Proof.
+  induction n as [|n IH]; intros t a la s H.
+  - destruct t, a; cbn in H |- *; try onomatch H; try (left; exact H);
+      destruct s; try onomatch H; left; exact H.
+  - destruct t as [| | | | |tl|tk]; destruct a as [| | | | |al|ak];
+      try (rewrite (vmatch_la_irrelevant (S n) _ _ JNull la s); [left; exact H | intros ? ? [? ?]; discriminate
+            | intros ? ? [? [? ?]]; discriminate]).
+    + (* lists *)
+      destruct s; [rewrite vmatch_set_unfold in *; left; exact H|].
+      rewrite vmatch_list_unfold in *. unfold list_match in *.
+      destruct tl as [|t0 tr]; destruct al as [|a0 ar]; try (left; reflexivity);
+        try (destruct (negb (Nat.eqb _ _)); [right; reflexivity | onomatch H]).
+      * cbn in H. onomatch H.
+      * cbn in H. onomatch H.
+      * destruct (negb (Nat.eqb (List.length (t0 :: tr)) (List.length (a0 :: ar)))); [onomatch H|].
+        cbn [py_truthy negb].
+        destruct (negb (py_truthy la)); [eapply list_loop_drop; eauto|].
+        destruct la; try onomatch H; eapply list_loop_drop; eauto.
+    + (* maps *)
+      rewrite vmatch_map_unfold in *. unfold dict_match in *.
+      destruct (key_set (lookup K_SET tk)); try onomatch H.
+      destruct (key_set (lookup K_LA tk)); try onomatch H.
+      destruct (map_cfg (lookup K_MAP tk)); try onomatch H.
+      eapply keys_loop_drop; eauto. intros; apply vmatch_vs_null.
+Qed.
+
+Lemma probe_null k : probe_la JNull k = LaVal JNull.
+Proof. reflexivity. Qed.
+
+(* drift detected although the last-applied document reads as None afterwards *)
+Theorem drift_detected_drop : forall t s p l l',
+  deviates t s p l l' ->
+  forall n la, wf t = true ->
+    vmatch_f n t l la s = O_match -> vmatch_f n t l' JNull s = O_false.
+Proof.
+  induction 1 as
+    [ t s l l' C Lf
+    | tk s l l' NM
+    | tl s l l' NL
+    | tl l al' Len
+    | tl l al' x Ix Mx
+    | tl l al' y Iy My
+    | tk s ak k tv sk lk cfg D Lk Sp
+    | tk s ak k tv v v' p sk lk cfg D Lk Sp C Lv Dev IH
+    | tk s ak k tv v v' p sk lk cfg fields T A A' D Lk Sp C Lv LT LA LA' Dev IH
+    | tk s ak k tv v' sk lk cfg fields D Lk Sp C Sh
+    | tl al i t a a' p Nt Na Dev IH ]; intros n la W H.
+  - apply vmatch_leaf; auto.
+  - destruct l'; destruct n; cbn; try reflexivity; exfalso; eapply NM; eauto.
+  - destruct l'; destruct n; cbn; try reflexivity; exfalso; eapply NL; eauto.
+  - destruct (vmatch_list_match_inv _ _ _ _ H) as [n' [al [En El]]]. subst n.
+    rewrite vmatch_list_unfold. unfold list_match.
+    destruct tl as [|t0 tr]; destruct al' as [|a0 ar]; try (exfalso; apply Len; reflexivity).
+    + cbn. reflexivity.
+    + cbn. reflexivity.
+    + cbn [List.length]. cbn [List.length] in Len.
+      destruct (Nat.eqb (S (List.length tr)) (S (List.length ar))) eqn:E.
+      * apply Nat.eqb_eq in E. exfalso. apply Len. congruence.
+      * reflexivity.
+  - rewrite vmatch_set_unfold. unfold set_match.
+    assert (F : forallb (fun x => set_mem x al') tl = false).
+    { apply Bool.not_true_is_false. intros C. rewrite forallb_forall in C.
+      rewrite (C x Ix) in Mx. discriminate Mx. }
+    destruct tl as [|t0 tr]; [destruct Ix|].
+    destruct al' as [|a0 ar].
+    + destruct (negb _); [reflexivity|]. rewrite F. reflexivity.
+    + destruct (negb _); [reflexivity|]. rewrite F. reflexivity.
+  - rewrite vmatch_set_unfold. unfold set_match.
+    assert (F : forallb (fun y => set_mem y tl) al' = false).
+    { apply Bool.not_true_is_false. intros C. rewrite forallb_forall in C.
+      rewrite (C y Iy) in My. discriminate My. }
+    destruct al' as [|a0 ar]; [destruct Iy|].
+    destruct tl as [|t0 tr].
+    + destruct (negb _); [reflexivity|]. rewrite F. rewrite Bool.andb_false_r. reflexivity.
+    + destruct (negb _); [reflexivity|]. rewrite F. rewrite Bool.andb_false_r. reflexivity.
+  - (* key removed *)
+    destruct n as [|n']; [cbn in H; onomatch H|].
+    rewrite vmatch_map_unfold in H |- *.
+    rewrite (dict_match_dirs _ _ _ _ _ _ _ D) in H. rewrite (dict_match_dirs _ _ _ _ _ _ _ D).
+    apply wf_map_inv in W. destruct W as [ND Wv].
+    pose proof (specified_key_inv lk k Sp) as [Dk [Ok Lkk]].
+    eapply (keys_loop_dev_drop (vmatch_f n')); eauto.
+    + intros; apply vmatch_vs_null.
+    + intros; eapply vmatch_drop_la; eauto.
+    + intros k1 E. apply v_lookup_del_key_neq; auto.
+    + eapply key_match_missing; eauto. apply probe_null. apply v_lookup_del_key_eq.
+  - (* below a plain key *)
+    destruct n as [|n']; [cbn in H; onomatch H|].
+    rewrite vmatch_map_unfold in H |- *.
+    rewrite (dict_match_dirs _ _ _ _ _ _ _ D) in H. rewrite (dict_match_dirs _ _ _ _ _ _ _ D).
+    apply wf_map_inv in W. destruct W as [ND Wv].
+    pose proof (specified_key_inv lk k Sp) as [Dk [Ok Lkk]].
+    assert (Km : key_match (vmatch_f n') sk lk cfg ak la k tv = O_match).
+    { apply (proj1 (keys_loop_match _ _ _ _ _ _ _) H); auto. apply v_lookup_In; auto. }
+    destruct (key_match_probe _ _ _ _ _ _ _ _ _ Sp Lv Km) as [lav P].
+    rewrite (key_match_plain _ _ _ _ _ _ _ _ _ _ Sp C P Lv) in Km.
+    eapply (keys_loop_dev_drop (vmatch_f n')); eauto.
+    + intros; apply vmatch_vs_null.
+    + intros; eapply vmatch_drop_la; eauto.
+    + intros k1 E. apply v_lookup_set_key_neq; auto.
+    + rewrite (key_match_plain _ _ _ _ (set_key k v' ak) _ _ _ v' _ Sp C (probe_null k))
+        by apply v_lookup_set_key_eq.
+      eapply IH; eauto. eapply Wv. apply v_lookup_In. eauto.
+  - (* below a key compared as a keyed collection *)
+    destruct n as [|n']; [cbn in H; onomatch H|].
+    rewrite vmatch_map_unfold in H |- *.
+    rewrite (dict_match_dirs _ _ _ _ _ _ _ D) in H. rewrite (dict_match_dirs _ _ _ _ _ _ _ D).
+    apply wf_map_inv in W. destruct W as [ND Wv].
+    pose proof (specified_key_inv lk k Sp) as [Dk [Ok Lkk]].
+    assert (Km : key_match (vmatch_f n') sk lk cfg ak la k tv = O_match).
+    { apply (proj1 (keys_loop_match _ _ _ _ _ _ _) H); auto. apply v_lookup_In; auto. }
+    destruct (key_match_probe _ _ _ _ _ _ _ _ _ Sp Lv Km) as [lav P].
+    pose proof (key_match_as_map_shape _ _ _ _ _ _ _ _ _ _ Sp C Lv Km) as Shv.
+    rewrite (key_match_as_map _ _ _ _ _ _ _ _ _ _ _ _ _ Sp C P Lv Shv LT LA) in Km.
+    eapply (keys_loop_dev_drop (vmatch_f n')); eauto.
+    + intros; apply vmatch_vs_null.
+    + intros; eapply vmatch_drop_la; eauto.
+    + intros k1 E. apply v_lookup_set_key_neq; auto.
+    + destruct (shape_ok v') eqn:Shv'.
+      * rewrite (key_match_as_map _ _ _ _ (set_key k v' ak) _ _ _ v' _ _ _ _ Sp C (probe_null k)
+                   (v_lookup_set_key_eq _ _ _) Shv' LT LA').
+        rewrite l2o_null.
+        destruct (list_to_object lav fields) as [L| |]; try onomatch Km.
+        eapply IH; eauto. eapply wf_list_to_object; eauto. eapply Wv. apply v_lookup_In. eauto.
+      * eapply key_match_as_map_bad; eauto. apply probe_null. apply v_lookup_set_key_eq.
+  - (* a compare-as-map value that is no longer a list of maps *)
+    destruct n as [|n']; [cbn in H; onomatch H|].
+    rewrite vmatch_map_unfold in H |- *.
+    rewrite (dict_match_dirs _ _ _ _ _ _ _ D) in H. rewrite (dict_match_dirs _ _ _ _ _ _ _ D).
+    apply wf_map_inv in W. destruct W as [ND Wv].
+    pose proof (specified_key_inv lk k Sp) as [Dk [Ok Lkk]].
+    eapply (keys_loop_dev_drop (vmatch_f n')); eauto.
+    + intros; apply vmatch_vs_null.
+    + intros; eapply vmatch_drop_la; eauto.
+    + intros k1 E. apply v_lookup_set_key_neq; auto.
+    + eapply key_match_as_map_bad; eauto. apply probe_null. apply v_lookup_set_key_eq.
+  - (* an element of an ordered list *)
+    destruct (vmatch_list_match_inv _ _ _ _ H) as [n' [al0 [En El]]].
+    inversion El. subst al0 n. rewrite vmatch_list_unfold in H |- *.
+    unfold list_match in *.
+    destruct tl as [|t0 tr]; [destruct i; discriminate Nt|].
+    destruct al as [|a0 ar]; [destruct i; discriminate Na|].
+    remember (list_set i a' (a0 :: ar)) as al' eqn:Eal.
+    assert (Len : List.length al' = List.length (a0 :: ar)) by (subst al'; apply list_set_length).
+    destruct al' as [|a1 ar']; [cbn in Len; discriminate Len|].
+    rewrite Len.
+    destruct (negb (Nat.eqb (List.length (t0 :: tr)) (List.length (a0 :: ar)))); [onomatch H|].
+    cbn [py_truthy negb]. rewrite Eal.
+    assert (Dv : forall lav, vmatch_f n' t a lav false = O_match -> vmatch_f n' t a' JNull false = O_false).
+    { intros lav M. eapply IH; eauto. eapply wf_list_inv; eauto. eapply nth_error_In; eauto. }
+    destruct (negb (py_truthy la)).
+    + eapply list_loop_dev_drop; eauto. intros; eapply vmatch_drop_la; eauto.
+    + destruct la; try onomatch H; eapply list_loop_dev_drop; eauto; intros; eapply vmatch_drop_la; eauto.
+Qed.
+
+(* for [vmatch] as called *)
+Theorem drift_detected_drop_thm t s p l l' la :
+  wf t = true -> vmatch t l la s = O_match -> deviates t s p l l' ->
+  vmatch t l' None s = O_false.
+Proof. unfold vmatch. intros W H D. cbn [la_arg]. eapply drift_detected_drop; eauto. Qed.
+
+(* drift at a specified path => the policy's action, also when the deviation
+   makes the annotation unreadable (it then reads as None) *)
+Theorem drift_corrected_gen cfg t l l' p ann ann' rr' la la' :
+  wf t = true ->
+  extract_last_applied_r l ann = Done la -> vmatch t l la false = O_match ->
+  deviates t false p l l' ->
+  extract_last_applied_r l' ann' = Done la' -> (la' = la \/ la' = None) ->
+  (if tc_should_own cfg then validate_owner_reffed_r l' (tc_owner_ref cfg) else Done (Reffed true)) = Done rr' ->
+  tail cfg t l' ann' =
+    Some (match tc_update cfg with
+          | PNever => (TLive l', [])
+          | PRecreate d => (TRetry d "spec.update.recreate", [CDelete])
+          | PPatch d => patch_branch cfg t l' rr' d
+          end).
+Proof.
+  intros W E M D E' [L|L] R; subst la'.
+  - exact (drift_corrected_thm cfg t l l' p ann ann' rr' la W E M D E' R).
+  - rewrite (tail_unfold cfg t l' ann' rr' None (Done false)); auto.
+    rewrite (drift_detected_drop_thm t false p l l' la W M D). reflexivity.
+Qed.
+
+(* since 69b5a7d: a live metadata / metadata.annotations that is not a map
+   reads as "no last-applied annotation" instead of raising *)
+Lemma extract_meta_nonmap top v ann :
+  lookup "metadata" top = Some v -> (forall m, v <> JMap m) ->
+  extract_last_applied_r (JMap top) ann = Done None.
+Proof.
+  intros L N. unfold extract_last_applied_r.
+  destruct top as [|p0 r]; [discriminate L|]. cbn [py_truthy negb get_r bind]. rewrite L.
+  destruct (negb (py_truthy v)); auto.
+  destruct v; auto. exfalso. eapply N; eauto.
+Qed.
+
+Lemma extract_annotations_nonmap top md v ann :
+  lookup "metadata" top = Some (JMap md) -> lookup "annotations" md = Some v ->
+  (forall m, v <> JMap m) ->
+  extract_last_applied_r (JMap top) ann = Done None.
+Proof.
+  intros L La N. unfold extract_last_applied_r.
+  destruct top as [|p0 r]; [discriminate L|]. cbn [py_truthy negb get_r bind]. rewrite L.
+  destruct md as [|m0 mr]; [discriminate La|]. cbn [py_truthy negb get_r bind]. rewrite La.
+  destruct (negb (py_truthy v)); auto.
+  destruct v; auto. exfalso. eapply N; eauto.
+Qed.
+
+(* the repaired third finding, positively: the target specifies metadata (a
+   map, as always) and the live metadata is replaced by a non-map: reported
+   as drift, the policy's action is taken *)
+Theorem metadata_retype_corrected cfg tk ak tmd v v' sk lk cfg' ann ann' rr' la :
+  wf (JMap tk) = true ->
+  extract_last_applied_r (JMap ak) ann = Done la -> vmatch (JMap tk) (JMap ak) la false = O_match ->
+  dirs_of tk = Some (sk, lk, cfg') -> lookup "metadata" tk = Some (JMap tmd) ->
+  specified_key lk "metadata" = true -> lookup "metadata" cfg' = None ->
+  lookup "metadata" ak = Some v -> (forall m, v' <> JMap m) ->
+  let l' := JMap (set_key "metadata" v' ak) in
+  (if tc_should_own cfg then validate_owner_reffed_r l' (tc_owner_ref cfg) else Done (Reffed true)) = Done rr' ->
+  tail cfg (JMap tk) l' ann' =
+    Some (match tc_update cfg with
+          | PNever => (TLive l', [])
+          | PRecreate d => (TRetry d "spec.update.recreate", [CDelete])
+          | PPatch d => patch_branch cfg (JMap tk) l' rr' d
+          end).
+Proof.
+  intros W E M D Lk Sp C Lv N l' R.
+  eapply (drift_corrected_gen cfg (JMap tk) (JMap ak) l' [SKey "metadata"] ann ann' rr' la None).
+  - exact W.
+  - exact E.
+  - exact M.
+  - eapply (dev_key tk false ak "metadata" (JMap tmd) v v' [] sk lk cfg'); eauto.
+    apply dev_map_retyped. exact N.
+  - eapply extract_meta_nonmap; [apply v_lookup_set_key_eq | exact N].
+  - right. reflexivity.
+  - exact R.
+Qed.
+
+(* ... and the same one level down: metadata.annotations (specified by the
+   target) replaced by a non-map *)
+Theorem annotations_retype_corrected cfg tk ak tmd tan md a a' sk lk cfg' sk2 lk2 cfg2 ann ann' rr' la :
+  wf (JMap tk) = true ->
+  extract_last_applied_r (JMap ak) ann = Done la -> vmatch (JMap tk) (JMap ak) la false = O_match ->
+  dirs_of tk = Some (sk, lk, cfg') -> lookup "metadata" tk = Some (JMap tmd) ->
+  specified_key lk "metadata" = true -> lookup "metadata" cfg' = None ->
+  dirs_of tmd = Some (sk2, lk2, cfg2) -> lookup "annotations" tmd = Some (JMap tan) ->
+  specified_key lk2 "annotations" = true -> lookup "annotations" cfg2 = None ->
+  lookup "metadata" ak = Some (JMap md) -> lookup "annotations" md = Some a ->
+  (forall m, a' <> JMap m) ->
+  let l' := JMap (set_key "metadata" (JMap (set_key "annotations" a' md)) ak) in
+  (if tc_should_own cfg then validate_owner_reffed_r l' (tc_owner_ref cfg) else Done (Reffed true)) = Done rr' ->
+  tail cfg (JMap tk) l' ann' =
+    Some (match tc_update cfg with
+          | PNever => (TLive l', [])
+          | PRecreate d => (TRetry d "spec.update.recreate", [CDelete])
+          | PPatch d => patch_branch cfg (JMap tk) l' rr' d
+          end).
+Proof.
+  intros W E M D Lk Sp C D2 Lk2 Sp2 C2 Lv La N l' R.
+  eapply (drift_corrected_gen cfg (JMap tk) (JMap ak) l' [SKey "metadata"; SKey "annotations"]
+            ann ann' rr' la None).
+  - exact W.
+  - exact E.
+  - exact M.
+  - eapply (dev_key tk false ak "metadata" (JMap tmd) (JMap md) _ [SKey "annotations"] sk lk cfg'); eauto.
+    eapply (dev_key tmd _ md "annotations" (JMap tan) a a' [] sk2 lk2 cfg2); eauto.
+    apply dev_map_retyped. exact N.
+  - eapply extract_annotations_nonmap; [apply v_lookup_set_key_eq | apply v_lookup_set_key_eq | exact N].
+  - right. reflexivity.
+  - exact R.
+Qed.
+
+(* concrete instance (the former _refuted witness): every policy now acts *)
 Definition wg_target : json :=
   JMap [("metadata", JMap [("name", JStr "w"); ("annotations", JMap [("note", JStr "n")])]);
         ("spec", JMap [("a", JInt 1)])].
@@ -882,19 +1282,21 @@ Definition wg_live' : json :=
 Definition wg_cfg (u : policy) : tail_cfg :=
   {| tc_should_own := false; tc_owner_ref := JMap []; tc_update := u |}.
 
-Lemma annotations_retype_raises :
-  wf wg_target = true /\
+Lemma annotations_retype_example :
   vmatch wg_target wg_live None false = O_match /\
   deviates wg_target false [SKey "metadata"; SKey "annotations"] wg_live wg_live' /\
-  (* the comparator itself would report the drift ... *)
-  vmatch wg_target wg_live' None false = O_false /\
-  (* ... but the tail raises before it gets there, whatever the policy *)
-  (forall u, tail (wg_cfg u) wg_target wg_live' None = Some (TRaised ExAttributeError, [])).
+  tail (wg_cfg PNever) wg_target wg_live' None = Some (TLive wg_live', []) /\
+  tail (wg_cfg (PRecreate 3)) wg_target wg_live' None = Some (TRetry 3 "spec.update.recreate", [CDelete]) /\
+  exists p, prepare_for_api wg_target = Done p /\
+    tail (wg_cfg (PPatch 5)) wg_target wg_live' None = Some (TRetry 5 "spec.update.patch", [CPatch p]) /\
+    (* ... and the patched object meets the target again *)
+    vmatch wg_target (merge_patch wg_live' (body p)) (Some (recorded p)) false = O_match.
 Proof.
+  split; [vm_compute; reflexivity|]. split.
+  { unfold wg_target, wg_live, wg_live'.
+    eapply (dev_key _ _ _ "metadata" _ _ _ _ [] [] []); try (vm_compute; reflexivity).
+    eapply (dev_key _ _ _ "annotations" _ _ _ _ [] [] []); try (vm_compute; reflexivity).
+    apply dev_map_retyped. discriminate. }
   split; [vm_compute; reflexivity|]. split; [vm_compute; reflexivity|].
-  split; [|split; [vm_compute; reflexivity | intros u; destruct u; vm_compute; reflexivity]].
-  unfold wg_target, wg_live, wg_live'.
-  eapply (dev_key _ _ _ "metadata" _ _ _ _ [] [] []); try (vm_compute; reflexivity).
-  eapply (dev_key _ _ _ "annotations" _ _ _ _ [] [] []); try (vm_compute; reflexivity).
-  apply dev_map_retyped. discriminate.
+  eexists. split; [vm_compute; reflexivity|]. split; vm_compute; reflexivity.
 Qed.
